@@ -141,7 +141,9 @@
 (hy-repr-register [hy.models.String str hy.models.Bytes bytes] (fn [x]
   (setv r (.lstrip (_base-repr x) "ub"))
   (if (is-not None (getattr x "brackets" None))
-    f"#[{x.brackets}[{x}]{x.brackets}]"
+    ; The reader discards one newline right after the opening delimiter,
+    ; so content that itself begins with a newline needs one more.
+    (+ "#[" x.brackets "[" (if (.startswith x "\n") "\n" "") x "]" x.brackets "]")
     (+
       (if (isinstance x bytes) "b" "")
       (if (.startswith "\"" r)
@@ -194,6 +196,13 @@
   (fn [fstring]
     (if (is-not None fstring.brackets)
       (+ "#[" fstring.brackets "["
+         ; As for plain bracket strings, re-add the newline that the
+         ; reader will discard.
+         (if (and fstring
+                  (isinstance (get fstring 0) hy.models.String)
+                  (.startswith (get fstring 0) "\n"))
+           "\n"
+           "")
          #* (lfor component fstring
                   (if (isinstance component hy.models.String)
                       (.replace (.replace (str component)
